@@ -9,6 +9,7 @@ import (
 	"log"
 	"net"
 	"net/http"
+	"sync"
 	"time"
 )
 
@@ -106,19 +107,29 @@ func (k KerberosProxy) Handler(w http.ResponseWriter, r *http.Request) {
 	w.Write(reply)
 }
 
+// kdcLookupMu serializes KDC look-ups: GetKDCs shuffles the list of the realm in place, inside
+// the configuration that all requests share
+var kdcLookupMu sync.Mutex
+
+func (k *KerberosProxy) getKDCs(realm string, tcp bool) (int, map[int]string, error) {
+	kdcLookupMu.Lock()
+	defer kdcLookupMu.Unlock()
+	return k.krb5Config.GetKDCs(realm, tcp)
+}
+
 func (k *KerberosProxy) forward(realm string, data []byte) (resp []byte, err error) {
 	if realm == "" {
 		realm = k.krb5Config.LibDefaults.DefaultRealm
 	}
 
 	// load udp first as is the default for kerberos
-	udpCnt, udpKdcs, err := k.krb5Config.GetKDCs(realm, false)
+	udpCnt, udpKdcs, err := k.getKDCs(realm, false)
 	if err != nil {
 		return nil, fmt.Errorf("cannot get udp kdc for realm %s due to %s", realm, err)
 	}
 
 	// load tcp
-	tcpCnt, tcpKdcs, err := k.krb5Config.GetKDCs(realm, true)
+	tcpCnt, tcpKdcs, err := k.getKDCs(realm, true)
 	if err != nil {
 		return nil, fmt.Errorf("cannot get tcp kdc for realm %s due to %s", realm, err)
 	}
